@@ -54,19 +54,21 @@ GenClause(ln) ==
              ELSE IF Visible(ln) /\ ln.r_etag = ln.prev_etag THEN "EtagFresh" ELSE "ok")
   ELSE "ok"
 
-VerdictFile(ln) ==
+VerdictFileD(ln, d) ==
   LET req == FReq(ln) rep == FRep(ln) obs == FObs(ln) IN
   IF ln.exc # "" /\ ln.status # 416 THEN "Raised"
   ELSE LET g == GenClause(ln) IN
   IF g # "ok" THEN g
   ELSE IF ~ln.conditional THEN
        (IF ln.status # 200 THEN "FullOn200/ConditionalOff"
-        ELSE IF ln.xsf THEN "ok" ELSE Full200(req, rep, obs))
-  ELSE LET v == IF InDomainRC(req, rep) THEN VerdictRC(req, rep, obs) ELSE Verdict(req, rep, obs) IN
+        ELSE IF ln.xsf THEN "ok" ELSE Full200D(req, rep, obs, d))
+  ELSE LET v == IF InDomainRC(req, rep) THEN VerdictRCD(req, rep, obs, d) ELSE VerdictD(req, rep, obs, d) IN
        \* a change invisible at one-second resolution (or to a date validator): either answer
        IF v = "Complete304" /\ ln.prev_p /\ ~SameState(ln) THEN "ok"
        ELSE IF ln.xsf /\ v = "FullOn200/Body" THEN "ok"
        ELSE v
+
+VerdictFile(ln) == VerdictFileD(ln, Std(FReq(ln), FRep(ln)))
 
 FileInDomain(ln) ==
   /\ ln.api \in {"sf", "sfd", "sdm"} /\ Len(ln.lm) = 7
@@ -130,5 +132,24 @@ VerdictEtagApi(ln) ==
   ELSE IF ln.status_inm = 200 /\ ln.out_inm # ln.body2 THEN "FullOn200/Body"
   ELSE IF ln.status_im = 412 /\ t1.opaque = t2.opaque /\ ~t1.weak /\ ~t2.weak THEN "Sound412"
   ELSE IF ~(ln.status_im \in {200, 412}) THEN "UnexpectedStatus"
+  ELSE "ok"
+
+\* ------------------------------------------------------------------ records of the repository's own tests
+\* op "rmc": Response.make_conditional, op "rfile": send_file / send_from_directory / SharedDataMiddleware
+\* with a real path; both bring the resource bytes (data) when the plugin could copy them without
+\* disturbing the test and say whether the recorded body is comparable (has_body).
+\* op "rw": one _RangeWrapper session: pulled = the bytes it pulled from the wrapped iterable, starting at
+\* resource offset base; out = the bytes it yielded; the yielded bytes are the part of [start, start + len)
+\* (len < 0: to the end) that lies in what was pulled -- a prefix of it while the session is unfinished.
+RD(ln) == [data |-> ln.data, hb |-> ln.has_body]
+VerdictRW(ln) ==
+  LET lo == Max2(ln.start - ln.base, 0)
+      hi0 == IF ln.len < 0 THEN Len(ln.pulled) ELSE Min2(ln.start + ln.len - ln.base, Len(ln.pulled))
+      hi == Max2(hi0, lo)
+      exp == IF hi > lo THEN SubSeq(ln.pulled, lo + 1, hi) ELSE <<>> IN
+  IF ln.exc # "" THEN "Raised"
+  ELSE IF ~IsPrefixOf(ln.out, exp) THEN "RangeBodyMatchesHeader/Body"
+  ELSE IF ln.finished /\ ln.out # exp THEN "RangeBodyMatchesHeader/Body"
+  ELSE IF ln.empty_chunk THEN "RangeBodyMatchesHeader/EmptyChunk"
   ELSE "ok"
 =============================================================================
